@@ -1293,3 +1293,61 @@ pub fn systematic_interleavings(thorough: bool) -> (Vec<Case>, bool) {
     }
     (cases, capped)
 }
+
+/// C09 across a connection loss: inbound QoS 2 messages answered with PUBREC (or whose PUBREC
+/// could not be written) are re-delivered by the broker after the session was resumed.
+pub fn qos2_resume(rng: &mut Rng) -> Case {
+    let mut cfg = GenCfg::inbound(rng);
+    cfg.redeliver = true;
+    cfg.inbound_unknown_ids = false;
+    cfg.inbound_absent_ids = false;
+    cfg.inbound_multi_ids = false;
+    cfg.drop_streams = false;
+    cfg.writer_tweaks = false;
+    cfg.session_expiry = Some(u32::MAX);
+    cfg.w_ops = [0, 1, 0, 3, 0, 0];
+    cfg.steps = rng.urange(6, 30);
+    let mut g = Gen::new(cfg, rng);
+    g.preamble();
+    // one subscription with an open stream for sure
+    let id = g.next_op_id();
+    let spec = g.new_op_spec(3, id);
+    g.push(Step::Op { id, handle: 0, spec });
+    g.settle();
+    g.send_ack(id, AckKind::Suback);
+    g.push(Step::Deliver { n: usize::MAX });
+    g.settle();
+    g.push(Step::OpenStream(id));
+    for _ in 0..g.cfg.steps {
+        g.action();
+    }
+    g.push(Step::WriterReady);
+    g.push(Step::Deliver { n: usize::MAX });
+    g.settle();
+    if g.rng.coin() {
+        // the connection dies while the client writes the PUBREC of one more message
+        let after = g.rng.urange(0, 3);
+        g.push(Step::Fault(FaultKind::WriteErr { after }));
+        g.force_whole = true;
+        g.inbound_publish();
+        g.force_whole = false;
+    } else {
+        let k = if g.rng.coin() { FaultKind::ReadEof } else { FaultKind::ReadErr };
+        g.push(Step::Fault(k));
+    }
+    g.settle();
+    let connect = g.connect_spec();
+    let elapsed = g.rng.range(0, 1000);
+    g.push(Step::Reconnect { elapsed, connect, auths: vec![] });
+    g.settle();
+    let props = g.connack_props();
+    g.broker(BrokerPkt::Connack { session_present: true, reason: 0, props });
+    g.push(Step::Deliver { n: usize::MAX });
+    g.settle();
+    g.cfg.steps = g.rng.urange(3, 25);
+    for _ in 0..g.cfg.steps {
+        g.action();
+    }
+    g.drain();
+    finish_case(g, "inbound/qos2-across-resume")
+}
